@@ -660,8 +660,8 @@ func init() {
 	addMutants("C02", offset)
 	addMutants("C03", offset)
 	addMutants("C01",
-		mutant{"vdrop-decided-by-the-aggregation-map", "pkg/engine/recovery.go", "\t\t\t\tdelete(indexes, idxName)\n\n\t\t\t\t// The dropped index may have come back with the snapshot.\n\t\t\t\tif _, ok := e.DB.GetVectorIndex(idxName); ok {\n", "\t\t\t\tst, known := indexes[idxName]\n\t\t\t\tdelete(indexes, idxName)\n\n\t\t\t\t// The dropped index may have come back with the snapshot.\n\t\t\t\tif known && st.restored {\n", "CDC-8", "arm:VDROP:drop-decided-by-the-DB"},
-		mutant{"benign:vdrop-asks-the-db-before-forgetting-the-state", "pkg/engine/recovery.go", "\t\t\t\tdelete(indexes, idxName)\n\n\t\t\t\t// The dropped index may have come back with the snapshot.\n\t\t\t\tif _, ok := e.DB.GetVectorIndex(idxName); ok {\n", "\t\t\t\t_, inLog := indexes[idxName]\n\t\t\t\tdelete(indexes, idxName)\n\n\t\t\t\t// The dropped index may have come back with the snapshot.\n\t\t\t\tif _, ok := e.DB.GetVectorIndex(idxName); ok || (inLog && ok) {\n", "silent", ""},
+		mutant{"vdrop-decided-by-the-aggregation-map", "pkg/engine/recovery.go", "\t\t\t\t_, created := indexes[idxName]\n\t\t\t\tdelete(indexes, idxName)\n\t\t\t\t_, restored := e.DB.GetVectorIndex(idxName)\n", "\t\t\t\tst, created := indexes[idxName]\n\t\t\t\tdelete(indexes, idxName)\n\t\t\t\trestored := created && st.restored\n", "CDC-8", "arm:VDROP:drop-decided-by-the-DB"},
+		mutant{"benign:vdrop-asks-the-db-before-forgetting-the-state", "pkg/engine/recovery.go", "\t\t\t\t_, created := indexes[idxName]\n\t\t\t\tdelete(indexes, idxName)\n\t\t\t\t_, restored := e.DB.GetVectorIndex(idxName)\n", "\t\t\t\t_, restored := e.DB.GetVectorIndex(idxName)\n\t\t\t\t_, created := indexes[idxName]\n\t\t\t\tdelete(indexes, idxName)\n", "silent", ""},
 		mutant{"snapshot-skips-unlinked-nodes", "pkg/core/core.go", "\t\t\tfor internalID, node := range nodes {\n\t\t\t\t// Create the node snapshot\n", "\t\t\tfor internalID, node := range nodes {\n\t\t\t\tif node != nil && len(node.Connections) == 0 {\n\t\t\t\t\tcontinue\n\t\t\t\t}\n\t\t\t\t// Create the node snapshot\n", "CDC-12", "every-node-written"},
 		mutant{"benign:snapshot-skips-nil-nodes", "pkg/core/core.go", "\t\t\tfor internalID, node := range nodes {\n\t\t\t\t// Create the node snapshot\n", "\t\t\tfor internalID, node := range nodes {\n\t\t\t\tif node == nil {\n\t\t\t\t\tcontinue\n\t\t\t\t}\n\t\t\t\t// Create the node snapshot\n", "silent", ""},
 	)
@@ -1033,7 +1033,7 @@ func init() {
 		mutant{"vacuum-drops-the-relation-from-the-other-view", "pkg/core/graph.go", "\t\t\t\tif len(newOut) == 0 {\n\t\t\t\t\tdelete(node.OutEdges, rel)\n", "\t\t\t\tif len(newOut) == 0 {\n\t\t\t\t\tdelete(node.InEdges, rel)\n", "GRD-viewdelete", "from-the-map-it-ranges-over"},
 	)
 	addMutants("C03",
-		mutant{"frame-payload-read-with-one-read", "pkg/persistence/frame.go", "\tif _, err := io.ReadFull(r, payload); err != nil {\n", "\tif _, err := r.Read(payload); err != nil {\n", "GRD-shortread", "fills-the-buffer"},
+		mutant{"frame-payload-read-with-one-read", "pkg/persistence/frame.go", "\t\t_, err := io.ReadFull(r, payload)\n\t\treturn payload, err\n", "\t\t_, err := r.Read(payload)\n\t\treturn payload, err\n", "GRD-shortread", "fills-the-buffer"},
 	)
 	m = mutant{"compaction-dates-the-link-record-with-the-end-time", "pkg/engine/recovery.go", "\t\tcTimeStr := strconv.FormatInt(cTime, 10)\n", "\t\tcTimeStr := strconv.FormatInt(dTime, 10)\n", "CDC-9", "GLINK:carries-the-time-the-version-was-created"}
 	addMutants("C01", m)
@@ -1051,5 +1051,35 @@ func init() {
 	addMutants("C19",
 		mutant{"status-committed-before-the-payload-is-encoded", "internal/server/http_handlers.go", "\tbody, err := json.Marshal(payload)\n\tif err != nil {\n\t\tlog.Printf(\"INTERNAL SERVER ERROR: response cannot be encoded: %v\", err)\n\t\tstatusCode = http.StatusInternalServerError\n\t\tbody = []byte(`{\"error\":\"Internal Server Error\"}`)\n\t}\n\tw.Header().Set(\"Content-Type\", \"application/json\")\n\tw.WriteHeader(statusCode)\n\tw.Write(append(body, '\\n'))\n", "\tw.Header().Set(\"Content-Type\", \"application/json\")\n\tw.WriteHeader(statusCode)\n\tjson.NewEncoder(w).Encode(payload)\n", "WEB-encode", "after-the-payload-is-encoded"},
 		mutant{"encoding-error-of-the-response-ignored", "internal/server/http_handlers.go", "\tbody, err := json.Marshal(payload)\n\tif err != nil {\n\t\tlog.Printf(\"INTERNAL SERVER ERROR: response cannot be encoded: %v\", err)\n\t\tstatusCode = http.StatusInternalServerError\n\t\tbody = []byte(`{\"error\":\"Internal Server Error\"}`)\n\t}\n", "\tbody, _ := json.Marshal(payload)\n", "WEB-encode", "after-the-payload-is-encoded"},
+	)
+	// ---- renames of unexported functions (see anchors.go): nothing observable changes, no rule may fire
+	m = mutant{"benign:rename-searchWithFusion", "pkg/engine/ops.go", "§all§searchWithFusion", "fusedSearch", "silent", ""}
+	addMutants("C06", m)
+	addMutants("C09", m)
+	addMutants("C15", m)
+	m = mutant{"benign:rename-removeOldIndexEntries", "pkg/core/core.go", "§all§removeOldIndexEntries", "dropStaleIndexEntries", "silent", ""}
+	addMutants("C08", m)
+	addMutants("C09", m)
+	m = mutant{"benign:rename-saveSnapshotLocked", "pkg/engine/recovery.go", "§all§saveSnapshotLocked", "writeSnapshotHoldingAdminLock", "silent", ""}
+	addMutants("C02", m)
+	addMutants("C14", m)
+	addMutants("C01", m)
+	addMutants("C16", mutant{"benign:rename-extractNamespacesFromRequest", "internal/server/middleware.go", "§all§extractNamespacesFromRequest", "namespacesOf", "silent", ""})
+	addMutants("C20", mutant{"benign:rename-recursiveSplit", "pkg/rag/splitter.go", "§all§recursiveSplit", "splitBySeparators", "silent", ""})
+	m = mutant{"benign:rename-searchLayerUnlocked", "pkg/core/hnsw/hnsw_index.go", "§all§searchLayerUnlocked", "beamSearchLayer", "silent", ""}
+	addMutants("C07", m)
+	addMutants("C06", m)
+	moreEdits["benign:rename-searchLayerUnlocked"] = []edit{{"pkg/core/hnsw/optimizer.go", "§all§searchLayerUnlocked", "beamSearchLayer"}}
+	addMutants("C17", mutant{"benign:rename-checkStaticFirewall", "pkg/proxy/proxy.go", "§all§checkStaticFirewall", "matchesDenyPattern", "silent", ""})
+	moreEdits["benign:rename-checkStaticFirewall"] = []edit{{"pkg/proxy/firewall.go", "§all§checkStaticFirewall", "matchesDenyPattern"}}
+	m = mutant{"benign:rename-replayAOF", "pkg/engine/recovery.go", "§all§replayAOF", "replayJournal", "silent", ""}
+	addMutants("C01", m)
+	addMutants("C03", m)
+	addMutants("C05", m)
+	moreEdits["benign:rename-replayAOF"] = []edit{{"pkg/engine/engine.go", "§all§replayAOF", "replayJournal"}}
+	addMutants("C06", mutant{"renamed-fusion-loses-the-cap", "pkg/engine/ops.go", "§all§searchWithFusion", "fusedSearch", "GRD-cap", "searchWithFusion"})
+	moreEdits["renamed-fusion-loses-the-cap"] = []edit{{"pkg/engine/ops.go", "\tif len(finalRes) > k {\n\t\tfinalRes = finalRes[:k]\n\t}\n\n\treturn finalRes, nil\n\n}", "\treturn finalRes, nil\n\n}"}}
+	addMutants("C03",
+		mutant{"frame-payload-allocated-as-promised", "pkg/persistence/frame.go", "\tif length <= eagerPayloadLimit {\n", "\tif length <= MaxPayloadSize {\n", "GRD-eagerframe", "small-or-grown"},
 	)
 }
